@@ -27,6 +27,21 @@
 (*    bound to; RebindOnLarge = TRUE (replace a grown buffer by a fresh one)   *)
 (*    leaves the handler writing into the old buffer, Handle reads an empty    *)
 (*    one and panics (NoPanic / ItemBound violated).                           *)
+(*  - the writer is environment and may fail: ArmFault(k) makes the next Write *)
+(*    return an error (k = 1), write short with an error (2) or panic (3; the  *)
+(*    caller recovers).  The record concerned has no line, Handle reports it   *)
+(*    (rets), and every later record must be handled as if nothing had         *)
+(*    happened: DeferUnlock = FALSE leaves the mutex locked after a panic and  *)
+(*    the next Handle never returns (NotWedged violated).  After a Write ERROR *)
+(*    the code's own behaviour is StickyError = TRUE (the shared json.Encoder  *)
+(*    keeps the first Write error and every later Handle returns it without    *)
+(*    writing); a failing writer is outside the property's quantifier, so the  *)
+(*    obligation there is the weaker one: every later Handle either writes     *)
+(*    its one correct line and returns nil, or returns an error and writes     *)
+(*    nothing (LinesAreTheGoodCalls, StaleOnlyAfterError) - never a nil return *)
+(*    without a line, never a hang.  NoStaleError (the full requirement) holds *)
+(*    for StickyError = FALSE and is refuted for TRUE: a documented side       *)
+(*    finding, not a violation of the property.                                *)
 EXTENDS Integers, Sequences, FiniteSets
 
 CONSTANTS Levels,        \* record levels offered to Log (slog.Level integers)
@@ -44,7 +59,11 @@ CONSTANTS Levels,        \* record levels offered to Log (slog.Level integers)
           ClipOnDerive,  \* TRUE: append(slices.Clip(parent), batch...); FALSE: append(parent, batch...)
           ShareOnCopy,   \* TRUE (Go): copies of a Record share the array behind the attributes 6, 7, ...
           CloneBeforeAdd,\* TRUE: Handle clones its copy before AddAttrs
-          RebindOnLarge  \* FALSE: reset() only truncates; TRUE: it swaps a large buffer for a new one
+          RebindOnLarge, \* FALSE: reset() only truncates; TRUE: it swaps a large buffer for a new one
+          Faults,        \* writer faults the environment may arm: subset of {1, 2, 3}
+          MaxFaults,     \* bound on ArmFault steps
+          DeferUnlock,   \* the mutex is released by a deferred call (also when Write panics)
+          StickyError    \* after a Write error the shared encoder fails every later Encode
 
 VARIABLES thr,      \* the configured level (copied to every derived handler)
           attrs,    \* attrs[h]: the accumulated attribute ids of handler h     (specification)
@@ -54,12 +73,18 @@ VARIABLES thr,      \* the configured level (copied to every derived handler)
           recs,     \* recs[r]: the r-th record value the caller built (and keeps)
           rheap,    \* backing arrays of the records' attribute slices
           item,     \* the pooled bufferedTextHandler: [large, bound]
-          panics,   \* Handle calls that panicked
+          panics,   \* Handle calls that panicked on their own (not because the writer did)
+          armed,    \* what the next Write will do: 0 succeed, 1 error, 2 short write + error, 3 panic
+          nfaults,  \* ArmFault steps so far
+          encErr,   \* the shared encoder remembers a Write error
+          locked,   \* the mutex was left locked
+          rets,     \* how each Handle call ended, in order: 0 line written, 1 returned the writer's error,
+                    \* 3 the writer's panic went through, 2 returned a stale error, 8 panicked, 9 never returned
           out,      \* the lines written so far, in order
           ngroups,  \* WithGroup calls so far (each of them panicked)
           steps
 
-vars == <<thr, attrs, parent, sl, heap, recs, rheap, item, panics, out, ngroups, steps>>
+vars == <<thr, attrs, parent, sl, heap, recs, rheap, item, panics, armed, nfaults, encErr, locked, rets, out, ngroups, steps>>
 
 LevelError == 8
 Severity(lv) == IF lv >= LevelError THEN "ERROR" ELSE "NORMAL"
@@ -139,7 +164,7 @@ RECURSIVE SumSeq(_)
 SumSeq(s) == IF s = <<>> THEN 0 ELSE Head(s) + SumSeq(Tail(s))
 
 RecAttrsOf(r) == recs[r].front \o ContentsIn(rheap, recs[r].back)
-RelogsSoFar == Len(out) + panics - Len(recs)
+RelogsSoFar == Len(rets) - Len(recs)
 
 ----------------------------------------------------------------------------
 Init == /\ thr \in Thresholds
@@ -151,6 +176,7 @@ Init == /\ thr \in Thresholds
         /\ rheap = <<>>
         /\ item = [large |-> FALSE, bound |-> TRUE]
         /\ panics = 0
+        /\ armed = 0 /\ nfaults = 0 /\ encErr = FALSE /\ locked = FALSE /\ rets = <<>>
         /\ out = <<>>
         /\ ngroups = 0
         /\ steps = 0
@@ -167,7 +193,7 @@ Derive(h, k) ==
           /\ parent' = Append(parent, h)
           /\ sl' = Append(sl, a.s)
           /\ heap' = a.heap
-    /\ UNCHANGED <<thr, recs, rheap, item, panics, out, ngroups>>
+    /\ UNCHANGED <<thr, recs, rheap, item, panics, armed, nfaults, encErr, locked, rets, out, ngroups>>
 
 (* A line: r = the record's number (0: not kept by the caller), rec = the      *)
 (* record's own attributes, attrs = everything the message shows.              *)
@@ -189,15 +215,39 @@ HandleOn(hp, h, r, rv) ==
         b2    == IF CloneBeforeAdd THEN Clip(b1) ELSE b1
         added == AddAttrsTo([front |-> rv.front, back |-> b2, heap |-> hp0], Contents(sl[h]))
         shown == added.front \o ContentsIn(added.heap, added.back)
+        largeNow == item.large \/ rv.sz \in LargeSizes
     IN /\ rheap' = added.heap
-       /\ IF StillBound
-            THEN /\ out' = Append(out, Line(h, rv.lv, r, rv.attrs, shown))
-                 /\ item' = [large |-> item.large \/ rv.sz \in LargeSizes, bound |-> TRUE]
-                 /\ UNCHANGED panics
-            ELSE \* Handle reads the new, empty buffer: msg[:len(msg)-1] panics, nothing is written
+       /\ IF locked
+            THEN \* h.mu.Lock() on a mutex nobody will ever unlock
+                 /\ rets' = Append(rets, 9)
+                 /\ item' = [large |-> largeNow, bound |-> StillBound]
+                 /\ UNCHANGED <<out, panics, armed, encErr, locked>>
+          ELSE IF ~StillBound
+            THEN \* Handle reads the new, empty buffer: msg[:len(msg)-1] panics, nothing is written
                  /\ panics' = panics + 1
+                 /\ rets' = Append(rets, 8)
                  /\ item' = [large |-> FALSE, bound |-> FALSE]
-                 /\ UNCHANGED out
+                 /\ UNCHANGED <<out, armed, encErr, locked>>
+          ELSE IF StickyError /\ encErr
+            THEN \* the encoder returns its remembered error without calling Write
+                 /\ rets' = Append(rets, 2)
+                 /\ item' = [large |-> largeNow, bound |-> TRUE]
+                 /\ UNCHANGED <<out, panics, armed, encErr, locked>>
+          ELSE /\ item' = [large |-> largeNow, bound |-> TRUE]
+               /\ armed' = 0
+               /\ UNCHANGED panics
+               /\ CASE armed = 0 ->
+                         /\ out' = Append(out, Line(h, rv.lv, r, rv.attrs, shown))
+                         /\ rets' = Append(rets, 0)
+                         /\ UNCHANGED <<encErr, locked>>
+                    [] armed \in {1, 2} ->   \* the writer's error is Handle's result
+                         /\ rets' = Append(rets, 1)
+                         /\ encErr' = TRUE
+                         /\ UNCHANGED <<out, locked>>
+                    [] OTHER ->             \* the panic leaves Handle; deferred calls run
+                         /\ rets' = Append(rets, 3)
+                         /\ locked' = ~DeferUnlock
+                         /\ UNCHANGED <<out, encErr>>
 
 (* The caller builds a new record (level, size class, AddAttrs calls of the    *)
 (* given sizes) and handles it.                                                *)
@@ -208,33 +258,41 @@ LogNew(h, lv, sz, shape) ==
            rv  == [lv |-> lv, sz |-> sz, attrs |-> ids, front |-> b.front, back |-> b.back]
        IN /\ recs' = Append(recs, rv)
           /\ HandleOn(b.heap, h, r, rv)
-    /\ UNCHANGED <<thr, attrs, parent, sl, heap, ngroups>>
+    /\ UNCHANGED <<thr, attrs, parent, sl, heap, nfaults, ngroups>>
 
 (* The caller hands a record value it already used to a handler again. *)
 ReLog(h, r) ==
     /\ HandleOn(rheap, h, r, recs[r])
-    /\ UNCHANGED <<thr, attrs, parent, sl, heap, recs, ngroups>>
+    /\ UNCHANGED <<thr, attrs, parent, sl, heap, recs, nfaults, ngroups>>
+
+(* The environment: the next Write call fails in the given way. *)
+ArmFault(k) ==
+    /\ armed = 0 /\ nfaults < MaxFaults
+    /\ armed' = k
+    /\ nfaults' = nfaults + 1
+    /\ UNCHANGED <<thr, attrs, parent, sl, heap, recs, rheap, item, panics, encErr, locked, rets, out, ngroups>>
 
 (* Abstract form used by trace validation: a record given by its attribute     *)
 (* ids, handled once, its storage not modelled.                                *)
 LogRec(h, lv, rec) ==
     /\ out' = Append(out, Line(h, lv, 0, rec, rec \o Contents(sl[h])))
-    /\ UNCHANGED <<thr, attrs, parent, sl, heap, recs, rheap, item, panics, ngroups>>
+    /\ UNCHANGED <<thr, attrs, parent, sl, heap, recs, rheap, item, panics, armed, nfaults, encErr, locked, rets, ngroups>>
 
 (* h.WithGroup(name) is not supported: it panics and changes nothing. *)
 WithGroup(h) ==
     /\ ngroups' = ngroups + 1
-    /\ UNCHANGED <<thr, attrs, parent, sl, heap, recs, rheap, item, panics, out>>
+    /\ UNCHANGED <<thr, attrs, parent, sl, heap, recs, rheap, item, panics, armed, nfaults, encErr, locked, rets, out>>
 
 Shapes == RecShapes \cup {<<m>> : m \in RecSizes}
 
 Next == /\ steps < MaxSteps
         /\ steps' = steps + 1
-        /\ \E h \in Handlers :
+        /\ \/ \E h \in Handlers :
              \/ \E k \in Batches : Derive(h, k)
              \/ Len(recs) < MaxLogs /\ \E lv \in Levels, sz \in Sizes, sh \in Shapes : LogNew(h, lv, sz, sh)
              \/ RelogsSoFar < MaxRelogs /\ \E r \in 1..Len(recs) : ReLog(h, r)
              \/ ngroups < MaxGroups /\ WithGroup(h)
+           \/ \E k \in Faults : ArmFault(k)
 
 Spec == Init /\ [][Next]_vars
 
@@ -274,6 +332,17 @@ RecordStorageUntouched == \A r \in 1..Len(recs) :
 (* handler still writes into the buffer Handle reads from.                     *)
 NoPanic == panics = 0
 ItemBound == item.bound
+
+(* Writer faults concern the one record they hit: no later Handle gets an old  *)
+(* error back, none waits for a mutex that will never be released, and the     *)
+(* lines are exactly those of the calls that ended well.                       *)
+NoStaleError == \A i \in 1..Len(rets) : rets[i] # 2
+(* ... or, for an implementation that gives up after a Write error: an old     *)
+(* error comes back only after the writer did fail once (and then nothing is   *)
+(* written for that call, see LinesAreTheGoodCalls).                           *)
+StaleOnlyAfterError == \A i \in 1..Len(rets) : rets[i] = 2 => \E j \in 1..(i - 1) : rets[j] = 1
+NotWedged == ~locked /\ \A i \in 1..Len(rets) : rets[i] # 9
+LinesAreTheGoodCalls == Len(out) = Cardinality({i \in 1..Len(rets) : rets[i] = 0})
 
 (* A handler's attributes are its parent's followed by its own batch. *)
 TreeShape == \A h \in Handlers : h > 1 =>
